@@ -29,16 +29,22 @@ ALPHABET = {
     "rebase": [S("G92", "X# Y#"), S("G92", "Z#"), S("G1", "X# Y#"), S("G1", "Y#"), S("G91"), S("G90")],
 }
 
+AT_OFF = pl.Shape("@ExcludeRegion off", (), tag="at-off")
+AT_ON = pl.Shape("@ExcludeRegion on", (), tag="at-on")
+# exclusion switched off and on again in mid-print (through the state's disable/enable entry points, which is what the
+# @-command handler calls); every move -- also those made while disabled -- ends outside the regions
+ALPHABET["toggle"] = [S("G1", "X# Y#"), S("G1", "Y#"), S("G1", "X# E#"), AT_OFF, AT_ON]
+
 KF_G92 = "g92_xyz_rebase"
 
 
 def scen(w, K=3, R=1, alphabet="moves"):
     shapes = ALPHABET[alphabet]
     g90e = w.flag("g90e")
-    disabled = w.flag("disabled")
+    disabled = w.flag("disabled") if alphabet != "toggle" else False
     pipe = pl.Pipe(w, g90e, extended={"G4": "exclude", "M204": "merge", "M117": "last", "M73": "merge"},
                    track_p=False)
-    nreg = w.choose(R + 1, "nregions")
+    nreg = w.choose(R + 1, "nregions") if alphabet != "toggle" else 1
     for i in range(nreg):
         kind = "rect" if w.choose(2, "rkind%d" % i) == 0 else "disc"
         pipe.add_region(pl.fresh_region(w, kind, "r%d" % i))
@@ -49,13 +55,23 @@ def scen(w, K=3, R=1, alphabet="moves"):
     for k in range(K):
         shape = shapes[w.choose(len(shapes), "shape")]
         w.cover("shape-" + shape.tag)
+        if shape is AT_OFF or shape is AT_ON:
+            pipe.program.append("<%s>" % shape.tag)
+            w.note("program", list(pipe.program))
+            if shape is AT_OFF:
+                out = pipe.state.disableExclusion("verif")
+                w.check(out == [], "forwarded-verbatim", "disabling outside an episode generated %r" % (out,))
+            else:
+                pipe.state.enableExclusion("verif")
+            pipe.enabled = (shape is AT_ON) and not disabled
+            continue
         text, code = pl.next_text(w, pipe, shape)
         rec = pipe.begin(text)
         if shape.code == "G92" and any(l in "XYZ" for l, _ in shape.words) and KF_G92 in w.excluded:
             pl.skip(w, KF_G92)
         if code in ("G2", "G3") and not pipe.V.abs_xyz:
             pl.skip(w, "arc in relative mode (outside C16/C02 claim)")
-        if rec.is_move and pipe.enabled and pipe.regions:
+        if rec.is_move and pipe.regions and (pipe.enabled or alphabet == "toggle"):
             w.assume(alg.not_(rec.dest_inside))
         rec = pipe.finish()
         if rec.raised is not None:
@@ -126,8 +142,10 @@ META = {
 def plan(tier):
     K = 2 if tier == "quick" else 3
     out = []
-    for name in ("moves", "retract", "frame", "other", "arcs", "rebase"):
+    for name in ("moves", "retract", "frame", "other", "arcs", "rebase", "toggle"):
         kk = K + 1 if name in ("retract", "frame") else K
+        if name == "toggle":
+            kk = 4          # off, move, on, single-axis move
         if tier == "thorough" and name == "frame":
             kk = K          # (K=4 over the 11-shape frame alphabet is beyond a 15 minute tier)
         out.append(Scenario(name, scen, params={"K": kk, "R": 1, "alphabet": name},
